@@ -66,7 +66,8 @@ def gen_value(rng, t, depth=3):
         return b, str(v)
     if k == 'Q':
         if t[1] == ('A', 'c'):
-            s = ''.join(rng.choice('abc xyz{}%01') for _ in range(rng.randrange(0, 12)))
+            n = rng.choice([1023, 1024, 1025, 2047, 2048, 2049, 3000, 5000]) if rng.random() < 0.06 else rng.randrange(0, 12)   # OstreamBuffer holds 1024 bytes
+            s = ''.join(rng.choice('abc xyz{}%01') for _ in range(n))
             return struct.pack('<I', len(s)) + s.encode(), s
         n = 0 if depth <= 0 else rng.choice([0, 1, 2, 3, 5])
         parts = [gen_value(rng, t[1], depth - 1) for _ in range(n)]
